@@ -214,7 +214,7 @@ def _direct_normal(spec, ctx, cc):
         }[layout]
         centre = float(r.choice([0.0, 0.5, 70.0, -4.0, 1000.0]))
         loc = centre + r.normal(size=shp[1]) * float(r.choice([0.0, 0.1, 5.0]))
-        scale = 10.0 ** r.uniform(-3, 2, size=shp[2])
+        scale = 10.0 ** r.uniform(-6, 2, size=shp[2])  # incl. noise levels / prior stds far below 1e-3 (a loaded model may hold them)
         zs = float(r.choice([0.0, 1.0, 5.0, 30.0]))
         x = np.broadcast_to(loc, shp[0]) + np.broadcast_to(scale, shp[0]) * r.normal(size=shp[0]) * zs
         x = np.asarray(x, dtype=np.float64).reshape(shp[0])
